@@ -3,6 +3,9 @@
 -/
 import Cvss.Model.V4
 import Cvss.Spec.V4
+import Cvss.Lemmas.Num4
+import Cvss.Lemmas.V4
+import Cvss.Lemmas.V4Search
 namespace Cvss.Props.C02
 open Cvss Cvss.Model
 
@@ -33,5 +36,99 @@ theorem maxComposed_pinned :
     Gen.V4.maxEq4 = [0, 1, 2].map (fun i => (natToStr i, Spec.V4.max4 i)) ∧
     Gen.V4.maxComposedExtractionMismatches = 0 := by
   refine ⟨?_, ?_, ?_, ?_, ?_⟩ <;> decide +kernel
+
+/-- a metric map as a successful `parse` produces it (see C04): every stored value is a legal value
+    of its metric and every mandatory metric is present -/
+def ValidMap (m : MMap) : Prop :=
+  (∀ k v, lookup k m = some v → ∃ vs, lookup k V4.tables.legal = some vs ∧ v ∈ vs) ∧
+  (∀ k ∈ V4.tables.mandatory, (lookup k m).isSome)
+
+/-- a well-formed score: an integer number of tenths between 0.0 and 10.0 -/
+def IsScore (x : Rat) : Prop := ∃ k : Nat, k ≤ 100 ∧ x = (k : Rat) / 10
+
+/-! ### facts about the specification (tables frozen in Spec/V4*.lean) -/
+
+/-- every macrovector that can arise (EQ3 = 2 forces EQ6 = 1) has a row in the look-up table -/
+theorem v4_lookup_total (a : Str → Str) : (Spec.V4.score? (Spec.V4.macroVector a)).isSome = true :=
+  Lemmas.V4Table.lookup_total a
+
+/-- the score gap to every existing next-lower macrovector is non-negative (so "classes that have a
+    next-lower macrovector" and the library's "gap ≥ 0" test select the same classes) -/
+theorem v4_gaps_nonneg :
+    (Spec.V4.tableTenths.all fun ((e1, e2, e3, e4, e5, e6), _) =>
+      let mv : Spec.V4.MacroVector := ⟨e1, e2, e3, e4, e5, e6⟩
+      match Spec.V4.score? mv with
+      | none => false
+      | some v =>
+        [Spec.V4.lower1 mv, Spec.V4.lower2 mv, Spec.V4.lower36 mv, Spec.V4.lower4 mv, Spec.V4.lower5 mv].all
+          fun l => match l with | none => true | some x => decide (x ≤ v)) = true :=
+  Lemmas.V4Table.gaps_nonneg
+
+/-- the choice of highest-severity vector is irrelevant: within the class of the assignment, EVERY
+    highest-severity vector that dominates it is at the same severity distance, and one always exists
+    (stated for the four classes that have distances) -/
+theorem v4_distance_choice_irrelevant (a : Str → Str)
+    (hl : ∀ p ∈ Spec.V4.levelTable, (lookup (Spec.V4.eff a p.1) p.2).isSome) :
+    let mv := Spec.V4.macroVector a
+    (∃ mx ∈ Spec.V4.max1 mv.eq1, Spec.V4.dominates a mx = true) ∧
+    (∀ mx ∈ Spec.V4.max1 mv.eq1, Spec.V4.dominates a mx = true → Spec.V4.distFrom a mx = Spec.V4.distance a (Spec.V4.max1 mv.eq1)) ∧
+    (∃ mx ∈ Spec.V4.max2 mv.eq2, Spec.V4.dominates a mx = true) ∧
+    (∀ mx ∈ Spec.V4.max2 mv.eq2, Spec.V4.dominates a mx = true → Spec.V4.distFrom a mx = Spec.V4.distance a (Spec.V4.max2 mv.eq2)) ∧
+    (∃ mx ∈ Spec.V4.max36 mv.eq3 mv.eq6, Spec.V4.dominates a mx = true) ∧
+    (∀ mx ∈ Spec.V4.max36 mv.eq3 mv.eq6, Spec.V4.dominates a mx = true →
+        Spec.V4.distFrom a mx = Spec.V4.distance a (Spec.V4.max36 mv.eq3 mv.eq6)) ∧
+    (∃ mx ∈ Spec.V4.max4 mv.eq4, Spec.V4.dominates a mx = true) ∧
+    (∀ mx ∈ Spec.V4.max4 mv.eq4, Spec.V4.dominates a mx = true → Spec.V4.distFrom a mx = Spec.V4.distance a (Spec.V4.max4 mv.eq4)) := by
+  intro mv
+  have hl' : Lemmas.V4Search.LegalEff a := hl
+  obtain ⟨b1, b2, b3, b4, _, b6, _⟩ := Lemmas.V4Table.mv_bounds a
+  obtain ⟨h1, h1'⟩ := Lemmas.V4Search.class1 hl' b1
+  obtain ⟨h2, h2'⟩ := Lemmas.V4Search.class2 hl' b2
+  obtain ⟨h3, h3'⟩ := Lemmas.V4Search.class36 hl' b3 b6
+  obtain ⟨h4, h4'⟩ := Lemmas.V4Search.class4 hl' b4
+  exact ⟨h1, h1', h2, h2', h3, h3', h4, h4'⟩
+
+/-- C09 (v4 part): for EVERY assignment the specification's score is an integer number of tenths in [0.0, 10.0] -/
+theorem v4_spec_range (a : Str → Str) : ∃ x, Spec.V4.score a = some x ∧ IsScore x := by
+  unfold Spec.V4.score
+  cases hno : Spec.V4.noImpact a with
+  | true => exact ⟨0, by simp, 0, by omega, by simp⟩
+  | false =>
+    obtain ⟨value, hvalue⟩ := Option.isSome_iff_exists.mp (v4_lookup_total a)
+    unfold Spec.V4.rawScore
+    simp only [hvalue, Bool.false_eq_true, if_false, Option.map_some]
+    refine ⟨_, rfl, ?_⟩
+    unfold Spec.V4.roundHalfUp IsScore
+    exact Lemmas.Num4.round_range _ (le_max_left _ _) (max_le (by norm_num) (min_le_left _ _))
+
+/-- `EPSILON` cannot change a result: adding any 0 ≤ δ ≤ 10⁻⁶ before rounding half-up to one decimal
+    gives the same tenth whenever ten times the value plus one half has a denominator below 10⁵
+    (a non-integer is then at least 10⁻⁵ below the next integer) -/
+theorem roundHalfUp_epsilon_robust (x δ : Rat) (hx : 0 ≤ x) (hd : (x * 10 + 1 / 2).den < 100000)
+    (h0 : 0 ≤ δ) (h1 : δ ≤ 1 / 1000000) : roundHalfUp1 (x + δ) = Spec.V4.roundHalfUp x := by
+  unfold Spec.V4.roundHalfUp
+  exact Lemmas.Num4.roundHalfUp_eps x δ hx hd h0 h1
+
+/-- MAIN: for every valid metric map, construction succeeds (no exception outside the hierarchy) and the
+    score is the specification's algorithm applied to the assignment read off the ORIGINAL map;
+    the severity attribute is the rating of that score -/
+theorem v4_build_eq_spec (s : Str) (m : MMap) (hv : ValidMap m) :
+    ∃ o, V4.build s m = some o ∧ o.vector = s ∧ o.orig = m ∧
+      Spec.V4.score (assignment V4.X m) = some o.base ∧ o.severity = V4.sevOf o.base := by
+  have hv' : Lemmas.V4.Valid m := hv
+  obtain ⟨m1, hm1, hfull⟩ := Lemmas.V4.full_spec m hv'
+  obtain ⟨b, hb, hspec⟩ := Lemmas.V4Search.baseScore_spec hv' hfull
+  refine ⟨(⟨s, m, V4.fillDefaults m1 V4.defaultedMetrics, b, V4.sevOf b⟩ : V4.Obj), ?_, rfl, rfl,
+    hspec, rfl⟩
+  unfold V4.build
+  rw [hm1]
+  simp only [Option.bind_eq_bind, Option.bind_some, hb]
+  rfl
+
+/-- non-vacuity: the README example CVSS:4.0/AV:N/AC:L/AT:N/PR:N/UI:N/VC:H/VI:H/VA:H/SC:H/SI:H/SA:N → 9.9 -/
+example :
+    Spec.V4.score (assignment V4.X [(c!"AV", c!"N"), (c!"AC", c!"L"), (c!"AT", c!"N"), (c!"PR", c!"N"), (c!"UI", c!"N"),
+      (c!"VC", c!"H"), (c!"VI", c!"H"), (c!"VA", c!"H"), (c!"SC", c!"H"), (c!"SI", c!"H"), (c!"SA", c!"N")]) =
+      some (mkRat 99 10) := by decide +kernel
 
 end Cvss.Props.C02
